@@ -297,7 +297,7 @@ class SdrFullSensorRecord(SdrCommon):
             raise NotImplementedError()
 
         raw = ((float(value) * 10**(-1 * self.k2))
-               / self.m) - (self.b * 10**self.k1)
+               - (self.b * 10**self.k1)) / self.m
 
         raw = int(round(raw))
 
